@@ -226,11 +226,19 @@ def run(chk):
     inv_model = json.loads(run_driver(["hiddeninv"])[0])
     si = {(a, b) for a, b, _w in inv_impl.get("items", [])}
     sm = {(a, b) for a, b in inv_model}
-    st["inventory"] = {"cases": len(si | sm), "disagreements": len(si ^ sm)}
+    # state (rebound or mutated somewhere, module globals of the extensions, …) must be exactly the model's list; containers
+    # for which the scan finds no mutation site (`constant-table`) are not state: a new or vanished one is recorded, not a
+    # disagreement — their constancy is checked at run time on every history below (`constants_changed`)
+    is_const = lambda it: it[1] == "constant-table"
+    delta = {it for it in si ^ sm if not is_const(it)}
+    # an item the model knows as a constant that the scan now finds written, or the reverse, differs in kind: it is in `delta`
+    st["inventory"] = {"cases": len(si | sm), "disagreements": len(delta)}
     chk.cov["evaluations"] += len(si | sm)
     chk.cov["inventory"] = {"items": len(si), "stateful": sorted(a for a, b in si if b in ("rebound-at-runtime", "mutable-container")),
-                            "only_in_impl": sorted(si - sm), "only_in_model": sorted(sm - si)}
-    if si ^ sm:
+                            "only_in_impl": sorted(si - sm), "only_in_model": sorted(sm - si),
+                            "constant_tables_not_in_model": sorted(a for a, b in si - sm if b == "constant-table"),
+                            "constant_tables_gone": sorted(a for a, b in sm - si if b == "constant-table")}
+    if delta:
         disagreements.append({"stream": "inventory", "only_in_impl": sorted(si - sm)[:20], "only_in_model": sorted(sm - si)[:20]})
 
     # ---- texts
@@ -315,6 +323,11 @@ def run(chk):
             raise HarnessFault(f"history op failed in the harness: {r['_raw'][:300]}")
         pr = r["probe"]
         fresh = ref_cfg.get((hist["probe"], hist["config"]))
+        if r.get("constants_changed"):
+            disagreements.append({"stream": "inventory", "history": hist,
+                                  "constant_tables_changed_at_run_time": r["constants_changed"]})
+            st["inventory"]["disagreements"] += 1
+        chk.cov["inventory"]["constant_tables_watched"] = max(chk.cov["inventory"].get("constant_tables_watched", 0), r.get("constants", 0))
         # oracle 1: history independence
         if fresh is not None and "_raw" not in fresh:
             same = (pr.get("exc") == fresh.get("exc")) and (pr.get("shas", [None])[:1] == fresh.get("shas", [None])[:1])
